@@ -59,7 +59,11 @@ def expect_case(draw, tier="quick"):
 
     lk, rk = keys(lu), keys(ru)
     form = draw(st.sampled_from(["name", "list", "own", "ext"]))
-    return {"nk": nk, "lk": lk, "rk": rk, "form": form, "extra": draw(st.text(max_size=5))}
+    # a table joined with itself (or one key vector given for both sides): the two sides are the same objects
+    self_join = draw(st.integers(0, 5)) == 0
+    if self_join:
+        rk = list(lk)
+    return {"nk": nk, "lk": lk, "rk": rk, "form": form, "extra": draw(st.text(max_size=5)), "self_join": self_join}
 
 
 def _unique(keys):
@@ -90,6 +94,9 @@ def run(case, ctx):
     nk = case["nk"]
     lt, lon, lkc = _build(case["lk"], nk, case["form"], "l")
     rt, ron, rkc = _build(case["rk"], nk, case["form"], "r")
+    if case.get("self_join"):
+        rt, ron, rkc = lt, lon, lkc
+        ctx.label("self_join")
     lu, ru = _unique(case["lk"]), _unique(case["rk"])
     ctx.label(f"cell_lu{int(lu)}_ru{int(ru)}")
     lset, rset = case["lk"], case["rk"]
